@@ -382,10 +382,16 @@ fn exec_generic<F: Function + RenderHints + MathFunction + Clone>(
     let sv = shape_vars(b, work);
     let token = CancelToken::new();
     let global = ThreadPool::Global;
-    let threads = pool.map(|_| &global);
+    let real = REAL_POOL.with(|p| p.borrow_mut().take());
+    let threads = match &real {
+        Some(p) => Some(p),
+        None => pool.map(|_| &global),
+    };
     st.borrow_mut().begin_exec(pool, Some(token.clone()), plan);
     st.borrow_mut().page = work.page;
-    rt::install(st);
+    if real.is_none() {
+        rt::install(st);
+    }
     let r = rt::catch(|| match work.kind {
         Kind::D2 => {
             let cfg = pixel::RenderConfig {
@@ -454,6 +460,67 @@ fn exec_generic<F: Function + RenderHints + MathFunction + Clone>(
     });
     rt::uninstall();
     r
+}
+
+thread_local! {
+    /// Self-test only: run the next execution on this real rayon pool, with
+    /// no simulator installed (SimVec then forwards to real rayon)
+    static REAL_POOL: std::cell::RefCell<Option<ThreadPool>> =
+        const { std::cell::RefCell::new(None) };
+}
+
+/// Executor-model validation (a self-test of the stub, not a verdict): the
+/// sequential result, real rayon pools of 1, 3 and 8 threads and the simulated
+/// executor must all agree on the unchanged tree.
+pub fn selftest_executor(n: u64) -> i32 {
+    use crate::rt::RunState;
+    let mut bad = 0;
+    for i in 0..n {
+        let r = rt::on_fresh_thread(1000 + i, move || {
+            let st: Shared = std::rc::Rc::new(std::cell::RefCell::new(
+                RunState::new(Chooser::search(crate::chooser::mix(0xE8EC, i))),
+            ));
+            let kind = [Kind::D2, Kind::D3, Kind::Mesh][(i % 3) as usize];
+            let work = gen_work(&mut st.borrow_mut().ch, kind, Tier::Quick);
+            let b = build(&work);
+            let reference = exec(&st, &b, &work, None, CancelPlan::Never);
+            let mut diffs = vec![];
+            for k in [1usize, 3, 8] {
+                let pool = rayon::ThreadPoolBuilder::new()
+                    .num_threads(k)
+                    .build()
+                    .unwrap();
+                REAL_POOL.with(|p| {
+                    *p.borrow_mut() = Some(ThreadPool::Custom(pool))
+                });
+                let o = exec(&st, &b, &work, Some(k), CancelPlan::Never);
+                if o != reference {
+                    diffs.push(format!("real rayon pool of {k}"));
+                }
+            }
+            for _ in 0..3 {
+                let p = draw_pool(&st);
+                let o = exec(&st, &b, &work, Some(p), CancelPlan::Never);
+                if o != reference {
+                    diffs.push(format!("simulated pool of {p}"));
+                }
+            }
+            (work.describe(), diffs)
+        });
+        match r {
+            Ok((_, d)) if d.is_empty() => (),
+            Ok((w, d)) => {
+                eprintln!("EXECUTOR-MODEL-MISMATCH workload {i}: {d:?} differ from sequential: {w}");
+                bad += 1;
+            }
+            Err(e) => {
+                eprintln!("executor selftest run {i} aborted: {e}");
+                bad += 1;
+            }
+        }
+    }
+    println!("executor model: {n} workloads x (sequential, real rayon 1/3/8, 3 simulated pools), mismatches={bad}");
+    if bad > 0 { 2 } else { 0 }
 }
 
 pub fn exec(
